@@ -269,6 +269,28 @@ def FixedArity (reg : Registry) : Prop :=
     fn c1 a1 k1 = .ok r1 → fn c2 a2 k2 = .ok r2 → r1.length = r2.length
 
 
+/-- the hypothesis is met by the registries the property talks about: every built-in has a fixed number
+    of results (`builtin_arity`: three for `svd`, none for `print`, one otherwise), a function
+    registered with fixed result kinds has that many -/
+theorem fixedArity_mkRegistry (fixed : List (Name × List Kind)) : FixedArity (mkRegistry fixed) := by
+  intro f fn hf c1 c2 a1 a2 k1 k2 r1 r2 h1 h2
+  unfold mkRegistry at hf
+  cases hb : builtin f with
+  | some g =>
+    simp only [hb, Option.some.injEq] at hf
+    subst hf
+    rw [builtin_arity f g hb c1 a1 k1 r1 h1, builtin_arity f g hb c2 a2 k2 r2 h2]
+  | none =>
+    simp only [hb] at hf
+    cases hl : fixed.lookup f with
+    | none => simp [hl] at hf
+    | some ks =>
+      simp only [hl, Option.some.injEq] at hf
+      subst hf
+      simp only [Except.ok.injEq] at h1 h2
+      subst h1 h2
+      rfl
+
 /-- no unification was printed-and-ignored for an assignee of this call statement -/
 def NoIgnoredCallConflict (reg : Registry) (t : Table) (ph : Name) (lhs : List Name) (f : Name)
     (args : List Expr) (kw : List (Name × Expr)) : Prop :=
